@@ -1074,7 +1074,10 @@ span = span[{id}_size:]
                     continue;
                 }
                 if found {
-                    if let analyzer::Size::Static(w) = self.schema.field_size(f.key) {
+                    if let Some(padded_size) = self.schema.padded_size(f.key) {
+                        // A padded array occupies its padding size.
+                        offset_from_end += padded_size;
+                    } else if let analyzer::Size::Static(w) = self.schema.field_size(f.key) {
                         offset_from_end += w;
                     }
                 }
